@@ -3,15 +3,13 @@
 #[verifier::external_body]
 pub struct PreflateError { _p: () }
 
-pub type Result<T> = std::result::Result<T, PreflateError>;
-
 impl PreflateError {
     #[verifier::external_body]
     pub fn new(exit_code: ExitCode, message: &str) -> PreflateError { unimplemented!() }
 }
 
 #[verifier::external_body]
-pub fn err_exit_code<T>(error_code: ExitCode, message: &str) -> (r: Result<T>)
+pub fn err_exit_code<T>(error_code: ExitCode, message: &str) -> (r: std::result::Result<T, PreflateError>)
     ensures r is Err,
 { unimplemented!() }
 
